@@ -408,6 +408,8 @@ def _run(ctx, tmp, nevrun):
 
     # ---- verdicts ---------------------------------------------------------------------------
     def key_of(case, kind):
+        if kind == "arg-value" and case.expect == "call" and ffigen.last_gpr_int_sse_struct(case.params, case.ret):
+            return "struct-INTEGER+SSE-in-last-gpr(libffi):arg-value"
         return "%s:%s" % (ffigen.sig_class(case), kind)
 
     stats = {"arity": collections.Counter(), "family": collections.Counter(), "outcome": collections.Counter(),
